@@ -726,6 +726,9 @@ func runHistory(idx int, ops []string, scratch, plz string) ([]result, []oracleF
 			os.RemoveAll(filepath.Join(dir, fmt.Sprintf("clean%d", nclean)))
 			// C01/C02 oracle: the incremental tree equals the clean tree for every target of the closure.
 			for _, l := range order { // dependency order: classify on the first differing target
+				if *mode == "c03" {
+					break // C03 is about which actions run; staleness of outputs is C01's/C02's oracle
+				}
 				if lastIncr[l] != trees[l] {
 					class := "incremental-differs-from-clean"
 					if contentOnly(lastIncr[l]) == contentOnly(trees[l]) && lastIncr[l] != "missing" {
@@ -769,7 +772,7 @@ func main() {
 		ops = rp
 	} else {
 		g := &gen{r: r.Rng}
-		nh := r.N(20, 500)
+		nh := r.N(20, 150)
 		for i := 0; i < nh; i++ {
 			ops = append(ops, g.history(r, 4+r.Rng.Intn(4))...)
 		}
@@ -790,6 +793,16 @@ func main() {
 			defer wg.Done()
 			defer func() { <-sem }()
 			a, b, c := runHistory(i, hs[i], scratch, plz)
+			for _, f := range b { // a build that fails may be the machine (load, OOM kill): re-run the whole history once
+				if strings.Contains(f.class, "failed-unexpectedly") {
+					a, b, c = runHistory(i, hs[i], scratch, plz)
+					if c == nil {
+						c = map[string]int{}
+					}
+					c["history-rerun-after-failed-build"]++
+					break
+				}
+			}
 			out[i] = hres{a, b, c}
 		}(i)
 	}
